@@ -84,8 +84,9 @@ impl IndRef for Kaufman {
 			self.candles.pop_front();
 		}
 		// exact predicate of the inputs: no change at all within the window (exactly known source values
-		// that are all equal, or one and the same candle throughout)
-		let flat = volatility.v == 0.0 && (self.vol.input.last_n(self.n + 1).iter().all(|q| q.r == 0.0) || self.candles.iter().all(|x| x == c));
+		// that are all equal — hl2 is a single rounded sum, halving is exact — or one and the same candle
+		// throughout)
+		let flat = volatility.v == 0.0 && (self.src == "hl2" || self.vol.input.last_n(self.n + 1).iter().all(|q| q.r == 0.0) || self.candles.iter().all(|x| x == c));
 		let er = if flat {
 			// † follows the implementation: without any change in the window (ER = 0/0) the ratio counts as 0
 			Q::exact(0.0)
